@@ -14,6 +14,7 @@ def decor_spec(rng, sync, wrap_ok=True):
         d["wrap"] = rng.sample(["oncomplete", "onabort", "meta", "custom", "either", "oncompletemeta", "onabortmeta", "eithermeta", "oncomplete0", "onabort0"], rng.randint(1, 3))
     # a decorator may implement several of the optional interfaces at once
     d["ewma"] = rng.random() < 0.15
+    d["glyph"] = rng.choice([0, 0, 0, 1, 2])   # double-width runes and combining marks: a column is a number of display cells
     return d
 
 
@@ -529,6 +530,14 @@ def family(name, rng, sid):
         return sc
     if name == "pop":
         return gen_base(rng, sid, "pop", pop=True, n=rng.randint(2, 4))
+    if name == "popqueue":
+        # pop-completed mode with bars queued behind others: a finished predecessor hands its place to its successor instead of
+        # being popped, and bars that finish later are popped above the successor that is still running
+        sc = gen_base(rng, sid, "popqueue", pop=True, n=rng.randint(3, 5), allow_queue=True)
+        for o in sc["clients"][0]:
+            if o["op"] == "add" and o.get("after"):
+                o.pop("rm", None)
+        return sc
     raise ValueError(name)
 
 
